@@ -570,3 +570,37 @@ def system_init(pid):
         st.ghost.pop('in_iter', None)
     c.pre_state = pre_state
     return c
+
+
+def replay_l_update_var(obligation=None, model=None, meta=None):
+    """native run of the real Model.l_update_var on a stub model whose discrete components are recorder instances of the real
+    classes (Limiter, Delay, Derivative, Average, Sampling, Switcher): in EVERY iteration of a step each component that has a check_var
+    is updated exactly once with the time, iteration count and error it was called with -- the history components re-read their
+    input at an unchanged time to refresh the newest sample with the current Newton iterate"""
+    import andes.core.discrete as D
+    from andes.core.model.model import Model
+    from contracts.packutil import Stub
+    n = 0
+    kinds = [k for k in ('Limiter', 'Delay', 'Derivative', 'Average', 'Sampling', 'Switcher', 'AntiWindup', 'DeadBand') if hasattr(D, k)]
+    for dae_t in (0.0, 1.25):
+        for niter in (0, 1, 2, 7, None):
+            log = []
+            comps = {}
+            for k in kinds:
+                for has in (True, False):
+                    inst = object.__new__(getattr(D, k))
+                    inst.__dict__['has_check_var'] = has
+                    inst.__dict__['check_var'] = (lambda name: (lambda *a, **kw: log.append((name, a, dict(kw)))))('%s/%s' % (k, has))
+                    comps['%s_%s' % (k, has)] = inst
+            stub = Stub(Model, discrete=comps)
+            n += 1
+            Model.l_update_var(stub, dae_t, niter=niter, err=0.5)
+            want = [('%s/True' % k, (), {'dae_t': dae_t, 'niter': niter, 'err': 0.5}) for k in kinds]
+            norm = [(nm, (), dict(zip(('dae_t', 'niter', 'err'), a), **kw)) for nm, a, kw in log]
+            if sorted(norm, key=str) != sorted(want, key=str):
+                missing = sorted(set(w[0] for w in want) - set(g[0] for g in norm))
+                return {'confirmed': True, 'inputs': {'dae_t': dae_t, 'niter': niter, 'err': 0.5, 'components': sorted(comps)},
+                        'observed': 'check_var calls %r; every component with a check_var is updated once per call%s' % (
+                            [g[0] for g in norm], (': not updated: %r' % missing) if missing else ''),
+                        'native_cmd': 'Model.l_update_var(stub, dae_t, niter=niter, err=err) with recorder components of the real classes'}
+    return {'confirmed': False, 'tried': n}
